@@ -348,3 +348,44 @@ extern "C" void harness_addpaths_open() {
   } else VA(la.empty());
   verif_reach();
 }
+
+// C02.d: CheckJoinLeft / CheckJoinRight only ever join two hot, closed, NON-horizontal neighbours whose tops are collinear with pt
+static int g_joinrec; static Vertex g_v[2];
+extern "C" __attribute__((noinline)) OutPt* stub_addlocalmaxpoly(ClipperBase* s, Active& e1, Active& e2, const Point64& pt) { g_joinrec += 1; return nullptr; }
+extern "C" __attribute__((noinline)) void stub_joinoutrecpaths(ClipperBase* s, Active& e1, Active& e2) { g_joinrec += 16; }
+extern "C" __attribute__((noinline)) double stub_perpdist(const Point64& pt, const Point64& l1, const Point64& l2) { double d = nondet_double(); ASSUME(d >= 0.0 && d <= 1e30); return d; }
+// IsCollinear replaced by an arbitrary verdict (its exactness is C18.b); the call must be on (this edge's top, pt, neighbour's top)
+static bool g_colverdict; static int g_colcalls; static Point64 g_colargs[3];
+extern "C" __attribute__((noinline)) bool stub_iscollinear_any(const Point64& p1, const Point64& p2, const Point64& p3) { g_colcalls++; g_colargs[0] = p1; g_colargs[1] = p2; g_colargs[2] = p3; return g_colverdict; }
+extern "C" void harness_checkjoin() {
+  ClipperBase& c = *new Clipper64();
+  const int64_t L = (int64_t)1 << 20;
+  Active& a = *new Active(); Active& b = *new Active();           // a is left of b in the AEL
+  a.next_in_ael = &b; b.prev_in_ael = &a; c.actives_ = &a;
+  Active* es[2] = {&a, &b};
+  for (int k = 0; k < 2; ++k) {
+    Active& e = *es[k];
+    e.bot = Point64(nd_range(-L, L), nd_range(-L, L)); e.top = Point64(nd_range(-L, L), nd_range(-L, L));
+    ASSUME(e.top.y <= e.bot.y);                                    // Clipper's sweep: top is the smaller y
+    e.curr_x = nd_range(-L, L);
+    e.local_min = new LocalMinima(&g_v[0], nondet_bool() ? PathType::Clip : PathType::Subject, nondet_bool());
+    OutRec* r = new OutRec(); r->idx = (size_t)nd_int(0, 1);        // allocated unconditionally: heap shape stays concrete
+    e.outrec = nondet_bool() ? r : nullptr;
+  }
+  Point64 pt(nd_range(-L, L), nd_range(-L, L));
+  bool right = nondet_bool(), chk = nondet_bool();
+  g_joinrec = 0; g_colcalls = 0; g_colverdict = nondet_bool();
+  if (right) c.CheckJoinRight(a, pt, chk); else c.CheckJoinLeft(b, pt, chk);
+  bool joined = a.join_with != JoinWith::NoJoin || b.join_with != JoinWith::NoJoin;
+  if (joined) {
+    VA(a.join_with == JoinWith::Right && b.join_with == JoinWith::Left);
+    VA(a.outrec && b.outrec);
+    VA(!a.local_min->is_open && !b.local_min->is_open);
+    VA(a.top.y != a.bot.y && b.top.y != b.bot.y);                   // never a horizontal edge (keeps rectilinear output exact)
+    VA(g_colcalls == 1 && g_colverdict);                            // the collinearity test was made and said yes ...
+    VA(g_colargs[1] == pt && ((g_colargs[0] == a.top && g_colargs[2] == b.top) || (g_colargs[0] == b.top && g_colargs[2] == a.top)));   // ... on the two tops and pt
+    if (!chk) VA(a.curr_x == b.curr_x);
+    VA(g_joinrec == 1 || g_joinrec == 16);                          // exactly one of: close the shared contour / merge the two contours
+  } else VA(g_joinrec == 0);
+  verif_reach();
+}
